@@ -56,7 +56,7 @@ func c06RandomCases(tier string) int {
 	if tier == "thorough" {
 		return 500000
 	}
-	return 24000
+	return 72000
 }
 
 var c06Boom int64
